@@ -388,6 +388,26 @@ func TestExhaustive(t *testing.T) {
 			}
 		}
 	}
+	// two option keywords with two numbers (the grammars that have them): every pair of extremes
+	for _, x := range extremes {
+		for _, y := range extremes {
+			var forms [][]string
+			for _, by := range []string{"bylex", "byscore", "rev", "withscores"} {
+				forms = append(forms, []string{"zrange", "zset", "-", "+", by, "limit", x, y}, []string{"zrange", "zset", "0", "10", by, "limit", x, y},
+					[]string{"zrange", "zset", "(1", "+inf", by, "limit", x, y})
+			}
+			forms = append(forms, []string{"lpos", "list", "a", "rank", x, "count", y}, []string{"lpos", "list", "a", "count", x, "maxlen", y},
+				[]string{"lpos", "list", "a", "rank", x, "maxlen", y}, []string{"set", "str", "v", "ex", x, "px", y}, []string{"xadd", "stream", "maxlen", x, "limit", y, "*", "f", "v"},
+				[]string{"hrandfield", "hash", x, "withvalues", y}, []string{"getrange", "str", x, y}, []string{"setrange", "str", x, y}, []string{"lrange", "list", x, y},
+				[]string{"ltrim", "list", x, y}, []string{"zrange", "zset", x, y}, []string{"xrange", "stream", x, y})
+			for _, form := range forms {
+				if !mine() {
+					continue
+				}
+				ta.run(t, kit.MkCmd(form...))
+			}
+		}
+	}
 	kit.C.Bulk(ta.evals, ta.distinct, "exhaustive-inputs")
 	kit.C.SetExtra("exhaustive_done", len(ta.groups) == 0)
 	kit.C.SetExtra("exhaustive_full_alphabet_arity", maxFull)
